@@ -199,6 +199,8 @@ FoldC(c) == [c EXCEPT !.fs = [i \in 1..Len(c.fs) |-> FoldF(c.fs[i])],
 (*   par   \in BOOLEAN              redundant parentheses around types      *)
 (*   bin   \in BOOLEAN              (%T a) instead of %(T a)                 *)
 (*   ar    \in {"plain","paren","fold","lz"}  1+2 | (1+2) | 3 | 01+02       *)
+(*            "lp" (1)+(2) | "rp" 1+(2+3) | "pp" ((1+2))   parenthesised     *)
+(*            operands, nested once                                         *)
 (*   arrow \in BOOLEAN              a function is marked by => instead of   *)
 (*                                  a ---functions--- section               *)
 (*   lead  \in BOOLEAN              explicit ---types--- at the start       *)
@@ -218,8 +220,15 @@ NumTok(n, lay) == K("num", IF lay.ar = "lz" THEN "0" \o Dec(n) ELSE Dec(n))
 RECURSIVE PlusR(_, _, _)
 PlusR(ns, lay, i) == IF i > Len(ns) THEN <<>>
                      ELSE (IF i > 1 THEN <<P("+")>> ELSE <<>>) \o <<NumTok(ns[i], lay)>> \o PlusR(ns, lay, i + 1)
+RECURSIVE EachParenR(_, _, _)
+EachParenR(ns, lay, i) == IF i > Len(ns) THEN <<>>
+                          ELSE (IF i > 1 THEN <<P("+")>> ELSE <<>>) \o <<P("("), NumTok(ns[i], lay), P(")")>> \o EachParenR(ns, lay, i + 1)
 ArithToks(ns, lay) ==
   IF lay.ar = "fold" THEN <<NumTok(NSum(ns), lay)>>
+  ELSE IF lay.ar = "lp" THEN EachParenR(ns, lay, 1)
+  ELSE IF lay.ar = "rp" THEN (IF Len(ns) = 1 THEN <<P("("), NumTok(ns[1], lay), P(")")>>
+                              ELSE <<NumTok(ns[1], lay), P("+"), P("(")>> \o PlusR(SubSeq(ns, 2, Len(ns)), lay, 1) \o <<P(")")>>)
+  ELSE IF lay.ar = "pp" THEN <<P("("), P("(")>> \o PlusR(ns, lay, 1) \o <<P(")"), P(")")>>
   ELSE IF lay.ar = "paren" \/ (lay.par /\ Len(ns) > 1) THEN <<P("(")>> \o PlusR(ns, lay, 1) \o <<P(")")>>
   ELSE PlusR(ns, lay, 1)
 
@@ -435,12 +444,18 @@ MutSwap(s, i)       == SubSeq(s, 1, i - 1) \o <<s[i + 1], s[i]>> \o SubSeq(s, i 
 MutReplace(s, i, t) == SubSeq(s, 1, i - 1) \o <<t>> \o SubSeq(s, i + 1, Len(s))
 MutInsert(s, i, t)  == SubSeq(s, 1, i - 1) \o <<t>> \o SubSeq(s, i, Len(s))
 MutTrunc(s, i)      == SubSeq(s, 1, i)
+MutSplice(s, i, q)  == SubSeq(s, 1, i - 1) \o q \o SubSeq(s, i + 1, Len(s))      \* token i replaced by the tokens q
+(* what an operand of an arithmetic expression (a number token) is replaced by: (ident) (number) () ident ((number) *)
+OperandEdits == { <<P("("), K("lc", "a"), P(")")>>, <<P("("), K("num", "1"), P(")")>>, <<P("("), P(")")>>,
+                  <<P("("), K("num", "4294967295"), P(")")>>, <<P("("), K("lc", "a"), P("+"), K("num", "1"), P(")")>>,
+                  <<P("("), P("("), K("num", "1"), P(")")>>, <<P("("), K("num", "1")>> }
 
 (* token alphabet of TL1 (kind, lexeme); "badN" = a lexical error whose error token has N bytes *)
 Alphabet1 ==
   { K("lc", "a"), K("lc", "x1"), K("uc", "A"), K("uc", "Type"), K("lcns", "a.b"), K("ucns", "a.B"),
     K("num", "0"), K("num", "1"), K("num", "007"), K("num", "4294967295"), K("num", "4294967296"),
-    K("#", "#"), K("tag", "#00000000"), K("tag", "#1234abcd"), K("ann", "@a"),
+    K("num", "18446744073709551615"), K("num", "18446744073709551616"),
+    K("#", "#"), K("tag", "#00000000"), K("tag", "#1234abcd"), K("tag", "#ffffffff"), K("ann", "@a"),
     P("("), P(")"), P("["), P("]"), P("{"), P("}"), P("<"), P(">"), P(":"), P(";"), P("."), P(","),
     P("%"), P("="), P("=>"), P("?"), P("*"), P("+"), P("!"), P("|"), P("-"),
     K("sec_t", "---types---"), K("sec_f", "---functions---"),
